@@ -425,6 +425,8 @@ func TestVerifC09(t *testing.T) {
 	big := []vfRegion{feed, {0x100000, 65 * 4096, 1}}
 	// two pools two frames apart: the second starts inside the 64-bit padding span of the first one's last bitmap word
 	near := []vfRegion{feed, {0x100000, 1 * 4096, 1}, {0x102000, 2 * 4096, 1}}
+	// the higher region listed first (C01 restricts its maps to sorted ones; nothing in C09 does)
+	desc := []vfRegion{feed, {0x200000, 2 * 4096, 1}, {0x100000, 1 * 4096, 1}}
 	cfgs := []vf09Config{
 		{Name: "1-frame/aa", Regions: one, Progs: []string{"a", "a"}},
 		{Name: "1-frame/afa-afa", Regions: one, Progs: []string{"afa", "afa"}},
@@ -440,6 +442,7 @@ func TestVerifC09(t *testing.T) {
 		{Name: "65-frames-63-held/ad-a-a", Regions: big, PreHeld: 63, Progs: []string{"ad", "a", "a"}},
 		{Name: "2-frames/4-threads", Regions: two, Progs: []string{"a", "a", "a", "a"}},
 		{Name: "1+2-near/aa-af-a", Regions: near, Progs: []string{"aa", "af", "a"}},
+		{Name: "2+1-descending/aa-af-a", Regions: desc, Progs: []string{"aa", "af", "a"}},
 		{Name: "1+2-near/d-d-u", Regions: near, PreHeld: 3, Progs: []string{"d", "d", "u"}},
 	}
 	bounds := []int{0, 1, 2, -1}
@@ -509,6 +512,6 @@ func TestVerifC09(t *testing.T) {
 		}
 	}
 	run.Traces = run.Evaluations
-	run.Finish(complete, fmt.Sprintf("%d pool/thread configurations (pools of 1, 2, 1+2 (far apart and two frames apart) and 65-with-63-held frames; 2-4 threads (5 in thorough) x <=3 (4) operations from {alloc, free own newest/oldest, racing free of one shared frame, free of an unmanaged frame}) x yieldFn {nil, yield}: every schedule with <=%d preemptions and the unbounded state-pruned pass", len(cfgs), bounds[len(bounds)-2]),
+	run.Finish(complete, fmt.Sprintf("%d pool/thread configurations (pools of 1, 2, 1+2 (far apart, two frames apart, and listed in descending address order) and 65-with-63-held frames; 2-4 threads (5 in thorough) x <=3 (4) operations from {alloc, free own newest/oldest, racing free of one shared frame, free of an unmanaged frame}) x yieldFn {nil, yield}: every schedule with <=%d preemptions and the unbounded state-pruned pass", len(cfgs), bounds[len(bounds)-2]),
 		"stateless DFS over the real AllocFrame/FreeFrame on the instrumented spinlock; ownership table, counters, drain, brute-force linearizability and the happens-before monitor on the hooked allocator fields; distinct = (configuration, result vector)")
 }
